@@ -19,7 +19,7 @@ func (P) Rule() string {
 }
 
 func (P) Gen(r *core.Rand, tier string, emit func([]string)) {
-	n, nj := 150, 40
+	n, nj := 500, 60
 	if tier == "thorough" {
 		n, nj = 3000, 1500
 	}
